@@ -680,6 +680,74 @@ func c08BlockRunSeveralTimes(b *core.B) {
 	}
 }
 
+// c08KeptIterators: an iterator kept in a variable hands out each of its elements once,
+// over however many loops: a loop that is left by break has taken the elements it has
+// visited and no others, the next loop over the same iterator goes on after them.
+func c08KeptIterators(b *core.B) {
+	type it struct {
+		name, mk string
+		elems    []int
+	}
+	its := []it{{"range", "range(1, 5)", []int{1, 2, 3, 4, 5}}, {"between", "between(0, 6)", []int{1, 2, 3, 4, 5}}, {"until", "until(5)", []int{0, 1, 2, 3, 4}}, {"custom", "fresh()", []int{1, 2, 3, 4, 5}}}
+	for _, i := range its {
+		for k := 0; k < len(i.elems); k++ {
+			for _, form := range []string{"two-loops", "inner-loop-over-the-same", "three-loops"} {
+				at := i.elems[k]
+				var src string
+				var want strings.Builder
+				switch form {
+				case "two-loops":
+					src = fmt.Sprintf("<%% let r = %s %%><%%= for (x) in r { %%><%%= x %%><%% if (x == %d) { break } %%><%% } %%>|<%%= for (x) in r { %%><%%= x %%><%% } %%>", i.mk, at)
+					for j, e := range i.elems {
+						fmt.Fprint(&want, e)
+						if j == k {
+							want.WriteString("|")
+						}
+					}
+					if k == len(i.elems)-1 && !strings.HasSuffix(want.String(), "|") {
+						want.WriteString("|")
+					}
+				case "three-loops":
+					src = fmt.Sprintf("<%% let r = %s %%><%%= for (x) in r { %%><%%= x %%><%% break %%><%% } %%>|<%%= for (x) in r { %%><%%= x %%><%% if (x == %d) { break } %%><%% } %%>|<%%= for (x) in r { %%><%%= x %%><%% } %%>", i.mk, at)
+					if k == 0 {
+						continue
+					}
+					for j, e := range i.elems {
+						fmt.Fprint(&want, e)
+						if j == 0 || j == k {
+							want.WriteString("|")
+						}
+					}
+				default:
+					// the body takes one more element from the iterator it is looping over
+					src = fmt.Sprintf("<%% let r = %s %%><%%= for (x) in r { %%>[<%%= x %%><%%= for (y) in r { %%>,<%%= y %%><%% break %%><%% } %%>]<%% } %%>", i.mk)
+					if k > 0 {
+						continue
+					}
+					for j := 0; j < len(i.elems); j += 2 {
+						fmt.Fprintf(&want, "[%d", i.elems[j])
+						if j+1 < len(i.elems) {
+							fmt.Fprintf(&want, ",%d", i.elems[j+1])
+						}
+						want.WriteString("]")
+					}
+				}
+				if !b.Begin(src) {
+					continue
+				}
+				ctx := c08Ctx()
+				ctx.Set("fresh", func() plush.Iterator { return &countIter{max: 5} })
+				res := render(b, src, ctx)
+				b.NonTrivialStr(src)
+				b.Count("iterator-kept-in-a-variable:" + i.name + "/" + form)
+				if res.Pan == nil && (res.Err != nil || res.Out != want.String()) {
+					b.Violate("wrong-loop-output|iterator-kept-in-a-variable|"+form, fmt.Sprintf("want %q, got %s", want.String(), res))
+				}
+			}
+		}
+	}
+}
+
 // c08OtherData: what a loop visits is what its iterable is worth in *this* execution. One
 // parsed template (and, with the cache on, one text) is executed with four sets of data in
 // turn; the iterables are written with literals that mention variables at every depth.
@@ -802,6 +870,7 @@ func c08Run(b *core.B) {
 		c08NilElements(b)
 		c08OtherData(b)
 		c08BlockRunSeveralTimes(b)
+		c08KeptIterators(b)
 	}
 	r := b.Rng(1)
 	n := 120000
